@@ -25,6 +25,10 @@ def run(ctx, crate):
     rule_width_always_applied(ctx, crate)
     rule_width_parsed_exact(ctx, crate)
     rule_trunc_keeps_width(ctx, crate)
+    # "wide_msg behaves as a truncating field as wide as the rest of the line": the wide element goes where its marker is and
+    # nowhere else (text containing the marker character would get a second copy spliced in: the line overflows)
+    from .c11 import rule_marker_out_of_band
+    rule_marker_out_of_band(ctx, crate)
 
 
 def rule_units(ctx, crate, rule="R-UNITS"):
